@@ -38,7 +38,8 @@ SITES = ["ske_sig", "srv_cv13", "cli_cv12", "cli_cv13", "pha", "srp",
          "psk", "finished", "rsa_kx", "checker"]
 PROBES = SITES + ["flip", "empty", "trunc", "extend", "degenerate",
                   "other_scheme",
-                  "other_transcript", "wrong_key", "omitted", "honest_ok"]
+                  "other_transcript", "wrong_key", "omitted", "honest_ok",
+                  "pha_finished"]
 COMPONENTS_REAL = ["tlslite verification code of both roles, key classes"]
 COMPONENTS_STUB = ["socket", "os.urandom", "clock", "byzantine peer"]
 ASSUMPTIONS = ["one corruption per run"]
@@ -246,7 +247,24 @@ def run(job, streams=None):
             return None
         return rule
 
-    if site in ("ske_sig", "srv_cv13", "cli_cv12", "cli_cv13", "pha"):
+    if site == "pha" and ch.draw(4, "c.phafin") == 1:
+        # valid Certificate and CertificateVerify, wrong Finished of the
+        # post-handshake flight (the handshake's own Finished stays intact)
+        cls = "flip"
+        nfin = [0]
+
+        def rule(msg, c):
+            if type(msg).__name__ != "Finished":
+                return None
+            nfin[0] += 1
+            if nfin[0] < 2:
+                return None
+            msg.verify_data = mutate_sig(msg.verify_data, "flip", ch)
+            fired.append("bad_pha_finished")
+            return [msg]
+        rules.append(rule)
+        probes["pha_finished"] = 1
+    elif site in ("ske_sig", "srv_cv13", "cli_cv12", "cli_cv13", "pha"):
         cls = SIGCLS[ch.draw(len(SIGCLS), "c.cls")]
         clsname = "ServerKeyExchange" if site == "ske_sig" else \
             "CertificateVerify"
